@@ -578,6 +578,13 @@ class Interp:
             if "repeat" not in e:
                 for a in e.get("args") or []:
                     m.append(self.eval(a))
+            else:
+                import copy
+                el = self.eval(e["repeat"][0])
+                n = self.eval(e["repeat"][1])
+                if isinstance(n, int) and not isinstance(n, bool) and n <= 4096:
+                    for _ in range(n):
+                        m.append(copy.deepcopy(el))
             return m
         return OPAQUE
 
@@ -701,11 +708,36 @@ class Interp:
             recv_list = None
         if recv_list is not None and args and isinstance(args[0], dict) and args[0].get("k") == "closure":
             cl = args[0]
-            if m in ("position", "any", "all", "find", "find_map", "filter", "map", "retain", "filter_map", "for_each", "flat_map", "take_while", "skip_while"):
+            if m in ("max_by", "min_by"):
+                items = list(recv_list)
+                if not items:
+                    return ("None",)
+                best = items[0]
+                for x in items[1:]:
+                    o = self.call_closure(cl, [best, x])
+                    if not (isinstance(o, tuple) and o[:1] == ("ord",)):
+                        raise Unknown("%s comparator result %r" % (m, o))
+                    # Iterator::max_by returns the last maximum, min_by the first minimum
+                    if m == "max_by" and o[1] <= 0:
+                        best = x
+                    if m == "min_by" and o[1] > 0:
+                        best = x
+                return ("Some", best)
+            if m in ("position", "any", "all", "find", "find_map", "filter", "map", "retain", "filter_map", "for_each", "flat_map", "take_while", "skip_while", "max_by_key", "min_by_key"):
                 res = []
                 for idx, x in enumerate(list(recv_list)):
                     r = self.call_closure(cl, [x])
                     res.append((idx, x, r))
+                if m in ("max_by_key", "min_by_key"):
+                    if not res:
+                        return ("None",)
+                    best = None
+                    for idx, x, r in res:
+                        if isinstance(r, tuple) or r is OPAQUE:
+                            raise Unknown("%s key %r" % (m, r))
+                        if best is None or (r >= best[0] if m == "max_by_key" else r < best[0]):
+                            best = (r, x)
+                    return ("Some", best[1])
                 if m == "take_while":
                     out = []
                     for idx, x, r in res:
@@ -842,6 +874,21 @@ class Interp:
             return recv
         if m == "abs" and num:
             return abs(recv)
+        if m in ("cmp", "partial_cmp") and args and not isinstance(recv, tuple) and not isinstance(args[0], tuple) and recv is not OPAQUE:
+            try:
+                r = (recv > args[0]) - (recv < args[0])
+                return ("ord", r) if m == "cmp" else ("Some", ("ord", r))
+            except TypeError:
+                return OPAQUE
+        if isinstance(recv, tuple) and recv[:1] == ("ord",):
+            if m == "then_with" and args and isinstance(args[0], dict):
+                return recv if recv[1] != 0 else self.call_closure(args[0], [])
+            if m == "then" and args and isinstance(args[0], tuple) and args[0][:1] == ("ord",):
+                return recv if recv[1] != 0 else args[0]
+            if m == "reverse":
+                return ("ord", -recv[1])
+            if m in ("is_lt", "is_le", "is_gt", "is_ge", "is_eq", "is_ne"):
+                return {"is_lt": recv[1] < 0, "is_le": recv[1] <= 0, "is_gt": recv[1] > 0, "is_ge": recv[1] >= 0, "is_eq": recv[1] == 0, "is_ne": recv[1] != 0}[m]
         if m == "then_some" and isinstance(recv, bool) and args:
             return ("Some", args[0]) if recv else ("None",)
         if m == "then" and isinstance(recv, bool) and args and isinstance(args[0], dict):
@@ -944,6 +991,12 @@ class Interp:
             return recv[0] == "Err"
         if m == "unwrap_or" and isinstance(recv, tuple) and recv[0] in ("Some", "None"):
             return recv[1] if recv[0] == "Some" else args[0]
+        if m == "unwrap_or_else" and isinstance(recv, tuple) and recv[0] in ("Some", "None", "Ok", "Err") and args and isinstance(args[0], dict):
+            if recv[0] in ("Some", "Ok"):
+                return recv[1]
+            return self.call_closure(args[0], [] if recv[0] == "None" else [recv[1]])
+        if m == "map_or" and isinstance(recv, tuple) and recv[0] in ("Some", "None") and len(args) == 2 and isinstance(args[1], dict):
+            return args[0] if recv[0] == "None" else self.call_closure(args[1], [recv[1]])
         if m in ("unwrap", "expect") and isinstance(recv, tuple) and recv[0] in ("Some", "Ok"):
             return recv[1]
         if m == "is_finite" and num:
